@@ -7,7 +7,7 @@ def run(ck, model_ok):
                'bad files and corrupt pieces; oracle on the arguments of every callback invocation: the torrent itself, the true total, done within 1..total and never decreasing, '
                'repeated only to deliver errors for one piece, every value in turn for interval 0, last call done = total unless cancelled, no read/size error or hash mismatch '
                'suppressed by the interval; calls compared with the Coq model; non-trivial = distinct (scenario, seed)')
-    pc.run_family(ck, model_ok, 'C12', [('progress', 800, 50000), ('faults', 200, 10000)])
+    pc.run_family(ck, model_ok, 'C12', [('progress', 800, 32000), ('faults', 200, 8000)])
 
 
 def replay(rp):
